@@ -153,4 +153,28 @@ example (g : Gather) (segs : Option (List PSeg)) (a : SetArgs) (h : a.src = .del
     setOp a g segs = some (.delete g.addrs) := by
   simp [setOp, h]
 
+/-! ## yaml-paths -/
+
+/-- yaml-paths prints exactly the search results.  For every document `d`, the hits printed are
+(sound) results `find d e` of an accepted `--search` expression `e`, each tagged with that expression;
+(no path twice); (excepted) no path that an accepted `--except` expression finds; (complete) every
+result of an accepted search expression that no accepted except expression finds is printed; and when
+every expression is accepted the document leaves the exit state alone. -/
+theorem paths_lines_are_found (valid : Str → Bool) (find : Node → Str → List Str) (a : PathsArgs) (d : Node) :
+    (∀ h ∈ (pathsDoc valid find a d).1, h.1 ∈ a.search ∧ valid h.1 = true ∧ h.2 ∈ find d h.1)
+    ∧ ((pathsDoc valid find a d).1.map (·.2)).Nodup
+    ∧ (∀ x ∈ a.exc, valid x = true → ∀ p ∈ find d x, p ∉ (pathsDoc valid find a d).1.map (·.2))
+    ∧ (∀ e ∈ a.search, valid e = true → ∀ p ∈ find d e,
+        (∀ x ∈ a.exc, valid x = true → p ∉ find d x) → p ∈ (pathsDoc valid find a d).1.map (·.2))
+    ∧ ((∀ e ∈ a.search, valid e = true) → (∀ e ∈ a.exc, valid e = true) → (pathsDoc valid find a d).2 = none) :=
+  Lemmas.pathsDoc_spec valid find a d
+
+/-- …one input at a time, one document at a time, in stream order: the lines of an input whose
+documents all loaded are the per-document hits tagged with the input's position and the document's
+index (`Lemmas.fileLines`). -/
+theorem paths_file_lines (valid : Str → Bool) (find : Node → Str → List Str) (a : PathsArgs) (fi i : Nat)
+    (ds : List Node) (st : Nat) :
+    (pathsFile valid find a fi i (ds.map some) st).1 = Lemmas.fileLines valid find a fi i ds :=
+  Lemmas.pathsFile_lines valid find a fi i ds st
+
 end Ypv.Cli
